@@ -50,6 +50,8 @@ import PyhamModel.Lemmas.Meaning
 import PyhamModel.Lemmas.FamilyProfile
 import PyhamModel.Lemmas.Iso
 import PyhamModel.Lemmas.IsoCounts
+import PyhamModel.Lemmas.FilterAbsent
+import PyhamModel.Lemmas.Interleave
 namespace Pyham.Props
 open Pyham
 
@@ -155,6 +157,13 @@ theorem C02_wf_of_realises (T : STree) (q : Taxon) (l : SL) (n : Node) (hw : wfh
       (∃ i, ∀ m ∈ r.members, ∀ k ∈ x.kids, k.key = m → k.dup = some r.did → k.tx = i :: x.tx)) :=
   ⟨realises_tx q l n h, realises_aligned q l n h, realises_disciplined T q l n hw h, realises_leaves q l n h,
    realises_shape T q l n hw h, realises_events T q l n hw h⟩
+
+/-- in a well-formed analysis (every loaded consistent input, `consistent_dataset_loads_wf`) every gene and HOG occurs exactly
+    once among the located members -- it is reachable from exactly one top-level HOG, through one chain of parents, or is a
+    singleton -- and is identified by its identity -/
+theorem C02_each_member_once (H : Ham) (hw : H.WFc) :
+    H.allLocs.Nodup ∧ ∀ l1 ∈ H.allLocs, ∀ l2 ∈ H.allLocs, l1.node.key = l2.node.key → l1 = l2 :=
+  ⟨allLocs_nodup hw, fun _ h1 _ h2 hk => key_inj hw h1 h2 hk⟩
 
 /-! ## C04 — genome gene lists are exact -/
 
@@ -431,6 +440,17 @@ theorem C11_loadFiltered (T : STree) (nm : Naming) (inp : Input) (f : Filter) (h
     ∃ gids hids, filterTops f inp.groups (filterGenes f inp.species, []) = .ok (gids, hids) ∧
       loadFiltered T nm inp f = buildHam T nm (projectInput inp gids.contains hids) (fun _ => true) none :=
   Pyham.C11_loadFiltered T nm inp f h
+
+/-- **unselected genes are absent from every listing and lookup**: every gene a filtered analysis lists was selected by
+    the first pass (`gids`, characterised by `C11_first_pass`: the named genes and the members of the selected families);
+    lookups by id or by cross-reference can only return selected genes -/
+theorem C11_only_selected_genes (T : STree) (nm : Naming) (inp : Input) (f : Filter) (Hf : Ham)
+    (h : inp.groups.all isOgWithId = true) (hf : loadFiltered T nm inp f = .ok Hf) :
+    ∃ gids hids, filterTops f inp.groups (filterGenes f inp.species, []) = .ok (gids, hids) ∧
+      (∀ g ∈ Hf.genes, g.id ∈ gids) ∧
+      (∀ id g, Hf.geneById id = .ok g → id ∈ gids) ∧
+      (∀ v ids, Hf.genesByExternalId v = .ok ids → ∀ id ∈ ids, id ∈ gids) :=
+  Pyham.C11_only_selected_genes T nm inp f Hf h hf
 
 /-- which families the first pass selects: those that are named or contain a named gene -/
 theorem C11_first_pass (f : Filter) (es : List Elem) (h : es.all isOgWithId = true)
@@ -709,6 +729,15 @@ theorem C16_on_loaded_consistent_input (D : Dataset) (hc : D.Consistent) :
 theorem C17_history_independent (H : Ham) (ops : List Op) :
     (run (SState.init H) ops).1.H = H ∧ (run (SState.init H) ops).2 = ops.map (answer H) :=
   Pyham.C17_history_independent H ops
+
+/-- **several analyses, interleaved**: whatever the interleaving of calls on two analyses alive at once (built from the same
+    inputs or not), both are unchanged at the end and every call returned what the same call returns on a freshly loaded copy
+    of the analysis it was addressed to -/
+theorem C17_interleaved (H1 H2 : Ham) (ops : List (Bool × Op)) :
+    (run2 (SState.init H1) (SState.init H2) ops).2 = ops.map (fun p => answer (if p.1 then H2 else H1) p.2) ∧
+    (run2 (SState.init H1) (SState.init H2) ops).1.1.H = H1 ∧
+    (run2 (SState.init H1) (SState.init H2) ops).1.2.H = H2 :=
+  Pyham.C17_interleaved H1 H2 ops
 
 /-- **the only permitted side effect**: after any call sequence every genome that existed after loading is still
     listed, and every other listed genome (created lazily by a lateral comparison or a tree profile) is empty.
